@@ -119,6 +119,7 @@ type genOpts struct {
 	brokenPct   int   // probability (percent) of one syntactically broken tag at top level (the program then fails to parse)
 	brokenKinds []int // restrict broken tags to these catalogue entries (swarm)
 	noise       bool  // multi-line strings / comments between tags (C15)
+	splitTags   bool  // break single-statement tags across lines at safe points (C15: the tag still begins on the same line)
 	sharedSafe  bool  // never mutate data that may live in a shared parent (always true today)
 	maxPieces   int
 	maxDepth    int
@@ -185,7 +186,113 @@ func (g *gen) tag(open, body, close string) {
 		}
 	}
 	g.pending = g.pending[:0]
+	if g.o.splitTags && g.pct("splittag", 30) {
+		if nb, n := splitBody(body, func(i int) bool { return g.pct("splitat", 40) }); n > 0 {
+			g.feat("tag_split_across_lines")
+			g.p.Features["tag_split_newlines"] += n
+			body = nb
+			// `<%=` itself is the statement's first token; after a plain `<%` the statement begins with
+			// its own first token, and a statement that begins on a later line than its tag is outside
+			// what C15 pins down (tag line or statement line?), so only `<%=` may be followed by a break
+			if open == "<%=" && g.pct("splitopen", 25) {
+				open += "\n"
+			}
+		}
+	}
 	g.cur.write(open + " " + body + " " + close)
+}
+
+// splitBody breaks the code of ONE tag across several lines at places where a
+// line break cannot change its meaning or move a statement: after a comma, an
+// opening parenthesis / bracket / hash-literal brace, or a binary operator,
+// never inside a string, never inside a block (the statements of a block keep
+// the line of the tag), never when the code has a line comment or a function
+// literal. The tag still BEGINS on the same line, which is the line C15 names.
+func splitBody(body string, want func(i int) bool) (string, int) {
+	if strings.Contains(body, "#") || strings.Contains(body, "fn(") || strings.Contains(body, "fn (") {
+		return body, 0
+	}
+	var sb strings.Builder
+	n := 0
+	blockDepth := 0
+	var braces []bool // true: block brace, false: hash literal
+	inStr := byte(0)
+	prevSig := byte(0) // last significant (non-space) byte outside strings
+	prevWord := ""
+	word := ""
+	for i := 0; i < len(body); i++ {
+		c := body[i]
+		sb.WriteByte(c)
+		if inStr != 0 {
+			if c == '\\' && inStr == '"' && i+1 < len(body) {
+				i++
+				sb.WriteByte(body[i])
+				continue
+			}
+			if c == inStr {
+				inStr = 0
+				prevSig = c
+			}
+			continue
+		}
+		isWordByte := c == '_' || c == '.' || c == '-' && word != "" || c >= '0' && c <= '9' || c >= 'a' && c <= 'z' || c >= 'A' && c <= 'Z'
+		if isWordByte {
+			word += string(c)
+		} else if word != "" {
+			prevWord, word = word, ""
+		}
+		switch c {
+		case '"', '`':
+			inStr = c
+			continue
+		case '{':
+			isHash := prevSig == 0 || strings.IndexByte("(,=:[+!&|<>~*/", prevSig) >= 0 || (isIdentByte(prevSig) && prevWord == "return")
+			braces = append(braces, !isHash)
+			if !isHash {
+				blockDepth++
+			}
+		case '}':
+			if len(braces) > 0 {
+				if braces[len(braces)-1] {
+					blockDepth--
+				}
+				braces = braces[:len(braces)-1]
+			}
+		}
+		if c != ' ' {
+			prevSig = c
+		}
+		if blockDepth > 0 || i+1 >= len(body) {
+			continue
+		}
+		cand := false
+		switch c {
+		case ',', '(', '[':
+			cand = true
+		case '{':
+			cand = len(braces) > 0 && !braces[len(braces)-1]
+		case ' ':
+			// a space right after a binary operator that is itself preceded by a space: ` + `, ` == `, ` && `
+			j := i - 1
+			k := j
+			for k >= 0 && strings.IndexByte("+*/=!&|<>~", body[k]) >= 0 {
+				k--
+			}
+			cand = k < j && k >= 0 && body[k] == ' ' && j-k <= 2
+		}
+		if cand && want(i) {
+			sb.WriteString("\n  ")
+			n++
+		}
+	}
+	if inStr != 0 || blockDepth != 0 {
+		return body, 0
+	}
+	return sb.String(), n
+}
+
+func isIdentByte(c byte) bool {
+	return c == '_' || c >= '0' && c <= '9' || c >= 'a' && c <= 'z' || c >= 'A' && c <= 'Z'
 }
 
 func (g *gen) vars(k kind) []variable {
@@ -231,6 +338,12 @@ func (g *gen) maybeProbe(e string, k kind, class string, force bool) string {
 		s := g.newSite(pkMethod, class, k)
 		g.feat("probe_method_value_receiver")
 		return fmt.Sprintf("vobj.PV(%d, %s)", s.ID, e)
+	case 3:
+		// same probe, but the helper's last result is declared as an interface that EMBEDS error
+		// (not the plain error type): still a helper that returns an error
+		s := g.newSite(pkValue, class, k)
+		g.feat("probe_value_error_subinterface")
+		return fmt.Sprintf("pvi(%d, %s)", s.ID, e)
 	default:
 		s := g.newSite(pkValue, class, k)
 		g.feat("probe_value")
@@ -1234,10 +1347,11 @@ func (g *gen) partialPiece(depth int) {
 		g.siteLog = append(g.siteLog, ls)
 		data += `, "layout": "` + layout + `"`
 	}
+	tagLine := g.cur.line // the line on which the partial tag begins (the tag itself may be split across lines)
 	g.tag("<%=", `partial("`+name+`", {`+data+`})`, "%>")
 	top := g.cur.top
 	if top == 0 {
-		top = g.cur.line // line of the tag just written (no newline inside it)
+		top = tagLine
 	}
 
 	// the partial's text, in its own template
@@ -1336,7 +1450,20 @@ func (g *gen) bigPiece() {
 // noisePiece: material that moves line numbers but contains no probes.
 func (g *gen) noisePiece() {
 	g.feat("noise")
-	switch g.intn("noise", 0, 14) {
+	switch g.intn("noise", 0, 20) {
+	case 15: // escaped quotes AFTER newlines inside a double-quoted string, several of them
+		g.cur.write("<% let " + g.fresh("ms") + " = \"one\ntwo \\\" q1\nthree \\\" q2 \\\" q3\n\nfive\" %>")
+	case 16: // back-quoted string with quotes, backslashes and a tag-like run inside
+		g.cur.write("<% let " + g.fresh("ms") + " = `a \" b\n\\ c %> d\n<% e` %>")
+	case 17: // adjacent strings with escaped quotes at their very start and end, over lines
+		g.cur.write("<%= \"\\\"x\n\\\"\" + \"y\n\\\"z\" %>\n")
+	case 18: // comment tag with tag-like text over lines (an unpaired double quote or back-quote inside a comment
+		// tag makes Parse loop for ever on the pinned tree: C03's subject, observed, not generated)
+		g.cur.write("<%# he said hi\n and left's\n < % > { ( %>after\n")
+	case 19: // tabs, form feed, vertical tab, a lone CR (not a line break for plush) and NUL-free odd bytes
+		g.cur.write("t\tt\f\v\rsame line\nnext\xc2\xa0nbsp\xe2\x80\xa8ls\n")
+	case 20: // several string literals in one tag, each with newlines, and a hash over lines
+		g.cur.write("<% let " + g.fresh("ms") + " = {\"k\n1\": \"v\n\\\"1\",\n \"k2\": `v\n2`} %>")
 	case 12:
 		g.cur.write("pre \\<% esc %>\npost \\<%= esc2 %>\n\n")
 	case 13:
@@ -1458,6 +1585,15 @@ func (g *gen) failingPiece() {
 		{"member-of-unknown-identifier", "zq.Name"},
 		{"index-of-unknown-identifier", "zq[0]"},
 		{"deep-method-on-unknown-identifier", "zq.a.b(1)"},
+		// operations on literals only (nothing of the context enters)
+		{"literal-division-by-zero", "10 / 0"},
+		{"literal-regex-does-not-compile", `"abc" ~= "("`},
+		{"literal-string-minus", `"n: " - 1`},
+		{"literal-index-out-of-range", "[1, 2][5]"},
+		{"literal-modulo-like-mismatch", `1 + true`},
+		// an unknown identifier that is NEAR several bound names (n1, n2; s1, s2; b0, b1)
+		{"unknown-identifier-near-bound-names", "n3 + 1"},
+		{"unknown-identifier-near-bound-names-2", "s3"},
 	}...)
 	k := kinds[g.intn("failkind", 0, len(kinds)-1)]
 	g.p.Failing = k.kind
